@@ -2,21 +2,27 @@
 (* C06: a transaction has an effect only if the holder(s) of the sender account authorised exactly its content.
 
    The object of the specification is a CASE: one transaction as an attacker or an honest user may hand it to a
-   node, described by who signed what.
-     sender account   cfg  = sequence of the weights of its registered signers 1..Len(cfg)   (<<>> = plain account)
-     signature        [by, v, old]
-                      by  = 0 the account's own key | i >= 1 the key of registered signer i | 999 a foreign key
+   node, described by who signed what, under which signing scheme, at which stage.
+     sender account   cfg  = sequence of the weights of its registered signers 1..Len(cfg)   (<<>> = plain account;
+                             weight 0 = the key with that number is not registered)
+     signature        [by, v, old, sch, who]
+                      who = the account in whose name the key signs: "S" the sender account | "P" the other account
+                            (configuration c.pcfg) | "Q" a second, plain, other account
+                      by  = 0 that account's own key | i >= 1 the key of its registered signer i | 999 a foreign key
                             | 997 nobody (malformed signature bytes)
                       v   = 0 the signature as produced | 1 its s -> n-s re-encoding (same signer, other bytes)
-                      old = TRUE: the signature was made BEFORE field f of the transaction was changed
-     c.sigs           the sender-side signatures, in transaction order (removal / repetition / substitution of
-                      signatures are simply other sequences)
+                      old = TRUE: the signature was made BEFORE field c.f of the transaction was changed
+                      sch = the SIGNING SCHEME (which signing hash the signer computed), Covers(sch) = the fields it commits to:
+                            "default"  the sender pays the gas itself: every field                         (DefaultSigner)
+                            "reimb"    the gas is reimbursed: every field but the gas terms                (ReimbursementTxSigner)
+                            "payer"    the gas payer's statement: the sender signature bytes + gas terms   (GasPayerSigner)
+     c.sigs / c.psigs the sender-side / payer-side signature lists of the transaction, in transaction order (removal / repetition /
+                      substitution are simply other sequences; a signature made in one scheme or role and placed in the other list
+                      is a signature with another sch).  The FORM of the transaction is what its format says: payer signatures
+                      present = reimbursed form (sender signatures are read in scheme "reimb"), absent = default form.
      c.f              "none" or the one field changed after the `old` signatures were made
-     c.pay            "self": the sender pays the gas | "payer": another account (configuration c.pcfg, signatures
-                      c.psigs) pays; then the sender signs everything but the gas terms and the payer signs the
-                      sender signatures + gasPrice + gasLimit | "own": the same reimbursed FORM, but the account named
-                      as gas payer is the sender account itself (c.psigs are then signatures of holders of the sender
-                      account: by = 0 its own key, i its registered signer i; c.pcfg repeats c.cfg)
+     c.gp0, c.gp      the gasPayer FIELD when the `old` signatures were made / as submitted: "absent" (no such member: the sender
+                      pays) | "sender" (names the sender account) | "payer" (names P) | "payer2" (names Q); c.f = "gasPayer" iff they differ
      c.box            "none" | "ok": the transaction travels inside a box signed by the box sender | "bad": the box
                       itself is signed by a foreign key | "old": the box sender signed BEFORE field c.f of the
                       sub-transaction was changed (c.f = "sigs": before its first sender signature was replaced); the
@@ -25,15 +31,20 @@
                       "true" its real hash (what the node's encoder writes) | "none" absent | "kept" the hash of the
                       sub-transaction as it was before the change | "wrong" an arbitrary hash
      c.kind           transfer / vote / signers (re-configuration of the account's signers to c.ncfg) / asset
-   Authorized is the property's notion (sets of distinct authorising holders).  Accepts is the decision procedure
-   of the node (tx_processor.go verifyTransactionSigs / checkSignersWeight): recover every signature over the
-   signing hash, look at the first one (plain account) or add up weights (multi-signature account).
-   The system: an account (cfg) to which cases are offered one at a time; Offer(c) hands the transaction to a miner
-   (a packaged re-configuration replaces cfg), Validate shows the resulting block to another node.  TLC enumerates
-   the case space (every Offer step of every reachable configuration) and checks on each step that Accepts never
-   exceeds Authorized, that it does not fall short of it on canonical cases, and the algebraic clauses of the
-   property (repetition, removal, foreign keys, re-encoding, tampering, payer, exact threshold).  Dev holds named
-   deviations of the real code (off in the design run, on in the negative control). *)
+   Authorized is the property's notion (sets of distinct authorising holders; a signature counts when it was made in the
+   scheme the transaction's form demands and nothing it covers changed afterwards; the gas terms need the holders of the
+   account that pays).  Accepts is the decision procedure of the node (tx_processor.go verifyTransactionSigs /
+   checkSignersWeight): recover every signature over the signing hash, look at the first one (plain account) or add up
+   weights (multi-signature account).
+   The system: an account whose registered signers are cfg now and were scfg in the last STABLE block; cases are offered
+   one at a time; Offer(c) hands the transaction to a miner (a packaged re-configuration replaces cfg - in a recent, not
+   yet stable block: scfg stays), Validate shows the resulting block to another node, Stabilise makes the head stable.
+   While cfg # scfg the cases offered are those of the signers that WERE registered (they must no longer authorise) and
+   of the ones that are.  TLC enumerates the case space (every Offer step of every reachable configuration) and checks on
+   each step that Accepts never exceeds Authorized, that it does not fall short of it on canonical cases, and the
+   algebraic clauses of the property (repetition, removal, foreign keys, re-encoding, tampering per scheme, scheme and
+   role re-use, payer, exact threshold).  Dev holds named deviations of the real code (off in the design run, on in the
+   negative controls). *)
 EXTENDS Integers, Sequences, FiniteSets, TLC
 CONSTANTS Weights,      \* weights a registered signer may have
           MaxSigners,   \* registered signers per account
@@ -41,13 +52,14 @@ CONSTANTS Weights,      \* weights a registered signer may have
           MaxSigs,      \* signatures per transaction in the signature sweep
           TamperFields, \* fields tampered in the tamper sweep
           PayCfgs,      \* payer account configurations
-          PaySenders,   \* sender configurations used in the gas-payer sweep
+          PaySenders,   \* sender configurations used in the gas-payer sweeps
           PayFields,    \* fields tampered in the gas-payer sweep
+          GpFields,     \* fields tampered (besides gasPayer itself) in the gasPayer-field sweep
           BoxCfgs,      \* sender configurations used in the box sweep
           Kinds,        \* transaction kinds (besides transfer) in the kind sweep
           ReconfCfgs,   \* sender configurations used in the re-configuration sweep
           NewCfgs,      \* target configurations of re-configuration transactions
-          Slices,       \* which sweeps are generated: subset of {"sigs","tamper","payer","junk","box","kinds","reconf"}
+          Slices,       \* which sweeps are generated: subset of {"sigs","tamper","payer","junk","box","kinds","reconf","gp","stale"}
           Dev           \* deviations switched on (design: {})
 
 Threshold == 100
@@ -57,7 +69,17 @@ Junk == 997                                   \* "signed" by nobody: 65 bytes wi
 Fields == {"to", "amount", "gasPrice", "gasLimit", "data", "expiration", "chainID", "type", "toName", "message",
            "gasPayer", "version"}
 GasTerms == {"gasPrice", "gasLimit"}
-PayerScope == GasTerms \cup {"sigs"}          \* what the payer signs ("sigs": the sender's signature bytes)
+
+(* ------------------------------------------------------------------ what every signature commits to *)
+SenderSchemes == {"default", "reimb"}
+Schemes == SenderSchemes \cup {"payer"}
+\* the fields a signature made in scheme sch covers ("sigs": the sender's signature bytes)
+Covers(sch) == CASE sch = "default" -> Fields
+                 [] sch = "reimb" -> Fields \ GasTerms
+                 [] sch = "payer" -> GasTerms \cup {"sigs"}
+GpVals == {"absent", "sender", "payer", "payer2"}
+\* the account a gasPayer field makes pay the gas
+PayerAcct(gp) == CASE gp \in {"absent", "sender"} -> "S" [] gp = "payer" -> "P" [] gp = "payer2" -> "Q"
 
 SeqsUpTo(S, n) == UNION {[1..k -> S] : k \in 0..n}
 Range(s) == {s[i] : i \in 1..Len(s)}
@@ -74,34 +96,49 @@ RECURSIVE SumW(_, _)
 SumW(cfg, P) == IF P = {} THEN 0 ELSE LET p == CHOOSE x \in P : TRUE IN Weight(cfg, p) + SumW(cfg, P \ {p})
 \* the holders P (a SET of distinct principals) authorise for an account with configuration cfg
 HolderAuth(cfg, P) == IF cfg = <<>> THEN Own \in P ELSE SumW(cfg, P) >= Threshold
-Reimbursed(c) == c.pay # "self"                \* reimbursed form: the sender signatures leave the gas terms to the payer signatures
-PaidBySender(c) == c.pay \in {"self", "own"}   \* whose balance pays the gas
-\* the account whose holders have to sign as gas payer
-PayCfg(cfg, c) == IF c.pay = "own" THEN cfg ELSE c.pcfg
-SenderScope(c) == IF Reimbursed(c) THEN Fields \ GasTerms ELSE Fields
+\* the form of the transaction: payer signatures present = reimbursed (the sender signatures leave the gas terms to the payer signatures)
+Form(c) == IF Len(c.psigs) >= 1 THEN "reimb" ELSE "default"
+Reimbursed(c) == Form(c) = "reimb"
+\* the scheme a signature in the sender / payer list must have been made in
+Need(role, c) == IF role = "payer" THEN "payer" ELSE Form(c)
+RoleSigs(role, c) == IF role = "payer" THEN c.psigs ELSE c.sigs
+\* the registered signers of account a ("S" | "P" | "Q")
+AcctCfg(cfg, c, a) == CASE a = "S" -> cfg [] a = "P" -> c.pcfg [] a = "Q" -> <<>>
 \* a box sender signs the identities (content and signatures) of the sub-transactions
 BoxScope == Fields \cup {"sigs"}
-\* a signature made before field f changed still signs the present content iff f is outside what it covers
-Counts(scope, f, s) == ~s.old \/ f \notin scope
-Signers(scope, f, sigs) == {sigs[i].by : i \in {j \in 1..Len(sigs) : Counts(scope, f, sigs[j])}}
-SenderOK(cfg, c) == HolderAuth(cfg, Signers(SenderScope(c), c.f, c.sigs))
-\* a gasPayer field changed after signing names an account whose holders signed nothing
-PayerOK(cfg, c) == c.f # "gasPayer" /\ (~Reimbursed(c) \/ HolderAuth(PayCfg(cfg, c), Signers(PayerScope, c.f, c.psigs)))
+\* a signature counts iff it was made in the scheme its place demands and, when made before field f changed, f is outside what it covers.
+\* (Neg_GasPayerFallbackInHash, a WRONG signing hash used only by a negative control: the hash takes the gas payer through the accessor
+\* that substitutes the sender for an absent field, so a change between "absent" and "sender" is invisible to it.)
+CountsD(D, role, c, s) == /\ \/ s.sch = Need(role, c)
+                             \/ ("Neg_SchemeBlind" \in D /\ role = "sender" /\ s.sch \in SenderSchemes)
+                          /\ \/ ~s.old
+                             \/ c.f \notin Covers(s.sch)
+                             \/ ("Neg_GasPayerFallbackInHash" \in D /\ c.f = "gasPayer" /\ PayerAcct(c.gp0) = PayerAcct(c.gp))
+Counts(role, c, s) == CountsD({}, role, c, s)
+\* the distinct holders of account a whose signatures (in the list of that role) count
+SignersOf(role, c, a) == LET ss == RoleSigs(role, c) IN {ss[i].by : i \in {j \in 1..Len(ss) : Counts(role, c, ss[j]) /\ ss[j].who = a}}
+SenderOK(cfg, c) == HolderAuth(cfg, SignersOf("sender", c, "S"))
+\* the gas terms are authorised by the holders of the account that pays: by the sender signatures themselves in the default form
+\* (then the sender must be the one that pays), by payer signatures of that account's holders in the reimbursed form
+PayerOK(cfg, c) == IF Reimbursed(c) THEN HolderAuth(AcctCfg(cfg, c, PayerAcct(c.gp)), SignersOf("payer", c, PayerAcct(c.gp)))
+                   ELSE PayerAcct(c.gp) = "S"
 \* the box sender authorised exactly the sub-transaction that is carried (whatever its JSON form claims about itself)
 BoxOK(c) == c.box \in {"none", "ok"} \/ (c.box = "old" /\ c.f \notin BoxScope)
 Authorized(cfg, c) == SenderOK(cfg, c) /\ PayerOK(cfg, c) /\ BoxOK(c)
 \* every signature is a valid one of a distinct holder that carries authority: what an honest wallet produces
-CanonSigs(cfg, scope, f, sigs) ==
-  /\ \A i \in 1..Len(sigs) : Counts(scope, f, sigs[i]) /\ (IF cfg = <<>> THEN sigs[i].by = Own ELSE sigs[i].by \in 1..Len(cfg))
-  /\ \A i, j \in 1..Len(sigs) : i # j => sigs[i].by # sigs[j].by
-Canonical(cfg, c) == /\ CanonSigs(cfg, SenderScope(c), c.f, c.sigs)
-                     /\ (Reimbursed(c) => CanonSigs(PayCfg(cfg, c), PayerScope, c.f, c.psigs))
-                     /\ (c.pay = "self" => c.psigs = <<>>)
+Holders(cfg) == IF cfg = <<>> THEN {Own} ELSE {i \in 1..Len(cfg) : cfg[i] > 0}
+CanonSigs(kcfg, role, c, a) ==
+  LET ss == RoleSigs(role, c) IN
+  /\ \A i \in 1..Len(ss) : Counts(role, c, ss[i]) /\ ss[i].who = a /\ ss[i].by \in Holders(kcfg)
+  /\ \A i, j \in 1..Len(ss) : i # j => ss[i].by # ss[j].by
+Canonical(cfg, c) == /\ CanonSigs(cfg, "sender", c, "S")
+                     /\ CanonSigs(AcctCfg(cfg, c, PayerAcct(c.gp)), "payer", c, PayerAcct(c.gp))
                      /\ c.label \in (IF c.box = "none" THEN {"true"} ELSE {"true", "none"})   \* (a wallet need not send the output-only member)
 
 (* ------------------------------------------------------------------ the node's decision procedure *)
-Garbage == 998     \* a signature over other content recovers to an address nobody holds
-Recovered(scope, f, sigs) == [i \in 1..Len(sigs) |-> IF Counts(scope, f, sigs[i]) THEN sigs[i].by ELSE Garbage]
+Garbage == 998     \* a signature over other content / of another account's holder recovers to an address without authority here
+Recovered(D, role, c, a) == LET ss == RoleSigs(role, c) IN
+  [i \in 1..Len(ss) |-> IF CountsD(D, role, c, ss[i]) /\ ss[i].who = a THEN ss[i].by ELSE Garbage]
 CheckWeight(D, cfg, rec) ==
   /\ Len(rec) > 0
   /\ IF cfg = <<>> THEN rec[1] = Own                                   \* plain account: signers[0] == From
@@ -109,40 +146,55 @@ CheckWeight(D, cfg, rec) ==
           THEN SumSeq([i \in 1..Len(rec) |-> Weight(cfg, rec[i])]) >= Threshold     \* weight added per signature
           ELSE SumW(cfg, Range(rec)) >= Threshold                                   \* weight added per distinct signer
 WellFormed(sigs) == \A i \in 1..Len(sigs) : sigs[i].by # Junk
-\* Two wrong decision procedures, used only by the negative controls of the design run (never allowed on real traces):
-\*   Neg_OwnPayerUnchecked  the payer signatures are looked at only when the named payer is another account
-\*   Neg_BoxTrustsLabel     the box signing hash is built from what the sub-transaction's JSON form claims its hash to be
+\* Wrong decision procedures, used only by the negative controls of the design run (never allowed on real traces):
+\*   Neg_OwnPayerUnchecked        the payer signatures are looked at only when the named payer is another account
+\*   Neg_BoxTrustsLabel           the box signing hash is built from what the sub-transaction's JSON form claims its hash to be
+\*   Neg_GasPayerFallbackInHash   (CountsD) the sender's signing hash does not tell an absent gasPayer field from one naming the sender
+\*   Neg_SchemeBlind              (CountsD) a sender signature is accepted whichever of the two sender schemes it was made in
+\*   Neg_StaleSigners             (Offer) the signers registered in the last stable block are consulted instead of the current ones
 BoxCheck(D, c) ==
   IF "Neg_BoxTrustsLabel" \notin D \/ c.box \in {"none", "bad"} THEN BoxOK(c)
   ELSE LET claimsCarried == c.label \in {"true", "none"}  claimsFormer == c.label = "kept"  same == c.f \notin BoxScope IN
        IF c.box = "ok" THEN claimsCarried \/ (claimsFormer /\ same) ELSE claimsFormer \/ (claimsCarried /\ same)
 AcceptsD(D, cfg, c) ==
-  /\ WellFormed(c.sigs) /\ (WellFormed(c.psigs) \/ ("Neg_OwnPayerUnchecked" \in D /\ c.pay = "own"))   \* recoverSigners fails on the first signature that does not recover
-  /\ IF Len(c.psigs) >= 1 THEN \/ CheckWeight(D, PayCfg(cfg, c), Recovered(PayerScope, c.f, c.psigs))
-                                \/ ("Neg_OwnPayerUnchecked" \in D /\ c.pay = "own")
-                           ELSE c.pay = "self"
-  /\ c.f # "gasPayer"                      \* the named payer is another (plain) account: nobody signed for it
-  /\ CheckWeight(D, cfg, Recovered(SenderScope(c), c.f, c.sigs))
+  LET pa == PayerAcct(c.gp)  ownUnchecked == "Neg_OwnPayerUnchecked" \in D /\ pa = "S" IN
+  /\ WellFormed(c.sigs) /\ (WellFormed(c.psigs) \/ ownUnchecked)   \* recoverSigners fails on the first signature that does not recover
+  /\ IF Reimbursed(c) THEN CheckWeight(D, AcctCfg(cfg, c, pa), Recovered(D, "payer", c, pa)) \/ ownUnchecked
+                      ELSE pa = "S"               \* no payer signatures: the (effective) gas payer must be the sender
+  /\ CheckWeight(D, cfg, Recovered(D, "sender", c, "S"))
   /\ BoxCheck(D, c)                        \* the box signing hash is recomputed from the carried sub-transaction; c.label is not looked at
 Accepts(cfg, c) == AcceptsD(Dev, cfg, c)
 
 (* ------------------------------------------------------------------ the case space *)
 NoCfg == <<>>
+Sg(b, v, o, sch, who) == [by |-> b, v |-> v, old |-> o, sch |-> sch, who |-> who]
+Sig(b, v, o) == Sg(b, v, o, "default", "S")           \* (scheme and account are filled in by Case from the form it describes)
+Retag(sigs, sch, who) == [i \in 1..Len(sigs) |-> [sigs[i] EXCEPT !.sch = sch, !.who = who]]
+\* the general case
+GCase(cfg, kind, sigs, f, g0, g, pcfg, psigs, box, ncfg) ==
+  [cfg |-> cfg, kind |-> kind, sigs |-> sigs, f |-> f, gp0 |-> g0, gp |-> g, pcfg |-> pcfg, psigs |-> psigs, box |-> box, ncfg |-> ncfg, label |-> "true"]
+\* the three honest forms, every signature made in the scheme of its form:
+\*   pay = "self"   the sender pays (default form, gasPayer names the sender)
+\*         "payer"  another account P (configuration pcfg) pays; psigs are signatures of P's holders
+\*         "own"    the reimbursed form naming the sender account itself; psigs are signatures of its own holders
+\* a changed gasPayer field (f = "gasPayer") names Q, whose holders signed nothing.
 \* c.cfg: the sender configuration the case is meant for (the monitor judges against the really registered signers)
 Case(cfg, kind, sigs, f, pay, pcfg, psigs, box, ncfg) ==
-  [cfg |-> cfg, kind |-> kind, sigs |-> sigs, f |-> f, pay |-> pay, pcfg |-> pcfg, psigs |-> psigs, box |-> box, ncfg |-> ncfg, label |-> "true"]
+  LET g0 == IF pay = "payer" THEN "payer" ELSE "sender" IN
+  GCase(cfg, kind, IF pay = "self" THEN sigs ELSE Retag(sigs, "reimb", "S"), f, g0, IF f = "gasPayer" THEN "payer2" ELSE g0,
+        pcfg, IF psigs = <<>> THEN <<>> ELSE Retag(psigs, "payer", IF pay = "payer" THEN "P" ELSE "S"), box, ncfg)
 Labelled(c, lb) == [c EXCEPT !.label = lb]
 Labels == {"true", "none", "kept", "wrong"}
 NoCase == Case(NoCfg, "none", <<>>, "none", "self", NoCfg, <<>>, "none", NoCfg)
 Plain(cfg, kind, sigs) == Case(cfg, kind, sigs, "none", "self", NoCfg, <<>>, "none", NoCfg)
 By(cfg) == {Own, Foreign} \cup 1..Len(cfg)
-Sig(b, v, o) == [by |-> b, v |-> v, old |-> o]
 FreshSigs(cfg) == {Sig(b, v, FALSE) : b \in By(cfg), v \in {0, 1}}
-Holders(cfg) == IF cfg = <<>> THEN {Own} ELSE 1..Len(cfg)
 \* increasing sequences of distinct holders (the non-empty subsets of the holders)
 HolderSeqs(cfg) == {s \in SeqsUpTo(Holders(cfg), Cardinality(Holders(cfg))) : Len(s) >= 1 /\ \A i \in 1..(Len(s) - 1) : s[i] < s[i + 1]}
 Full(cfg) == CHOOSE s \in HolderSeqs(cfg) : Len(s) = Cardinality(Holders(cfg))
 SigsOf(hs, o) == [i \in 1..Len(hs) |-> Sig(hs[i], 0, o)]
+\* every holder of account a (configuration kcfg) signs in scheme sch
+AllSign(kcfg, a, o, sch) == LET hs == Full(kcfg) IN [i \in 1..Len(hs) |-> Sg(hs[i], 0, o, sch, a)]
 \* 1. every sequence of at most MaxSigs signatures by holders, the own key and a foreign key, in both encodings
 SigCases(cfg) == {Plain(cfg, "transfer", s) : s \in SeqsUpTo(FreshSigs(cfg), MaxSigs)}
 \* 2. one field changed after some (at least one) of an honest set of signatures was made
@@ -164,6 +216,27 @@ PayerVariants(pc) == {SigsOf(Full(pc), FALSE), <<>>, <<Sig(Foreign, 0, FALSE)>>}
 \* 3b. malformed signature bytes among at most two signatures
 JunkCases(cfg) == {Plain(cfg, "transfer", s) : s \in SeqsUpTo(FreshSigs(cfg) \cup {Sig(Junk, 0, FALSE), Sig(Junk, 1, FALSE)}, 2)
                                                       \ SeqsUpTo(FreshSigs(cfg), 2)}
+\* 3c. WHAT EACH SIGNATURE COMMITS TO, per signing scheme and per value of the gasPayer field.  The field is g0 when the `old`
+\*     signatures are made and g when the transaction is submitted (g0 # g: the field is the one that changed - made absent, made
+\*     explicit, pointed at another account, the payer swapped; g0 = g: another field f changed, or none).  The holders of the sender
+\*     account sign in either sender scheme, before or after the change; payer signatures: none (dropped / never added), by the holders
+\*     of the account the field named before, by those of the account it names now (before / after a change they cover).  Also: the
+\*     sender's own signatures copied into the payer list, and payer-scheme signatures put into the sender list (role re-use).
+GpVariants(cfg, kind, g0, g, pc, f, box) ==
+  LET acfg(a) == CASE a = "S" -> cfg [] a = "P" -> pc [] a = "Q" -> <<>>
+      olds == IF f \in {"none", "sigs"} THEN {FALSE} ELSE BOOLEAN     \* (no sender signature covers the signature bytes)
+      polds == IF f \in Covers("payer") THEN BOOLEAN ELSE {FALSE}     \* (a payer signature made before a change outside what it covers: the same bytes)
+      ss == {AllSign(cfg, "S", o, sch) : o \in olds, sch \in SenderSchemes}
+      ps == {<<>>} \cup {AllSign(acfg(a), a, o, "payer") : a \in {PayerAcct(g0), PayerAcct(g)}, o \in polds} IN
+  {GCase(cfg, kind, s, f, g0, g, pc, p, box, NoCfg) : s \in ss, p \in ps} \cup
+  (IF f # "none" THEN {} ELSE
+     {GCase(cfg, kind, AllSign(cfg, "S", FALSE, "reimb"), f, g0, g, pc, AllSign(cfg, "S", FALSE, "reimb"), box, NoCfg),
+      GCase(cfg, kind, AllSign(cfg, "S", FALSE, "payer"), f, g0, g, pc, AllSign(acfg(PayerAcct(g)), PayerAcct(g), FALSE, "payer"), box, NoCfg)})
+GpFieldsOf(g0, g) == IF g0 # g THEN {"gasPayer"} ELSE {"none"} \cup GpFields
+GpPayCfgs(g0, g) == IF "payer" \in {g0, g} THEN PayCfgs ELSE {NoCfg}
+GpCases(cfg) ==
+  IF cfg \notin PaySenders THEN {} ELSE
+  UNION {UNION {UNION {GpVariants(cfg, "transfer", gg[1], gg[2], pc, f, "none") : f \in GpFieldsOf(gg[1], gg[2])} : pc \in GpPayCfgs(gg[1], gg[2])} : gg \in GpVals \X GpVals}
 \* 4a. the box data is not what the node's encoder would have written for the box that was signed
 BoxFields == (TamperFields \ {"version"}) \cup {"sigs"}
 BoxForgeCases(cfg) ==
@@ -177,51 +250,87 @@ BoxForgeCases(cfg) ==
   \* reimbursed sub-transaction whose payer changed the gas terms (and re-signed, or not) after the box sender signed
   UNION {{Labelled(Case(cfg, "transfer", SigsOf(Full(cfg), TRUE), f, p[1], p[2], SigsOf(Full(p[2]), o), "old", NoCfg), lb) :
             o \in BOOLEAN, f \in BoxFields \cap GasTerms, lb \in Labels} : p \in PayForms(cfg)}
+\* 4b. a sub-transaction whose gasPayer member is absent / names its sender / names another account, the member dropped, added or
+\*     pointed elsewhere before / after the box sender signed (all the signature variants of 3c)
+BoxGpVals == {"absent", "sender", "payer2"}
+BoxGpCases(cfg) ==
+  UNION {UNION {GpVariants(cfg, "transfer", gg[1], gg[2], NoCfg, IF gg[1] = gg[2] THEN "none" ELSE "gasPayer", b) :
+                  b \in (IF gg[1] = gg[2] THEN {"ok"} ELSE {"ok", "old"})} : gg \in BoxGpVals \X BoxGpVals}
 \* 4. inside a box (also: a reimbursed transaction inside a box)
 BoxCases(cfg) ==
   IF cfg \notin BoxCfgs THEN {} ELSE
   {Case(cfg, "transfer", s, "none", "self", NoCfg, <<>>, b, NoCfg) : s \in SeqsUpTo(FreshSigs(cfg), 2), b \in {"ok", "bad"}} \cup
   {Case(cfg, "transfer", SigsOf(Full(cfg), TRUE), f, "self", NoCfg, <<>>, "ok", NoCfg) : f \in TamperFields \ {"version"}} \cup   \* (a box with a sub-transaction of another version does not parse)
   UNION {{Case(cfg, "transfer", ss, "none", p[1], p[2], ps, "ok", NoCfg) : ss \in SenderVariants(cfg, FALSE), ps \in PayerVariants(p[2])} : p \in PayForms(cfg)} \cup
-  BoxForgeCases(cfg)
+  BoxForgeCases(cfg) \cup
+  (IF "gp" \in Slices THEN BoxGpCases(cfg) ELSE {})
 \* 5. other kinds of transaction
 KindCases(cfg) ==
   {Plain(cfg, k, s) : k \in Kinds, s \in SeqsUpTo(FreshSigs(cfg), 2)} \cup
   {Case(cfg, k, SigsOf(Full(cfg), TRUE), f, "self", NoCfg, <<>>, "none", NoCfg) : k \in Kinds \cap {"vote"}, f \in TamperFields \cap {"to", "data", "type", "amount"}} \cup
   \* the account reimburses itself: honest / gas terms changed after every signature was made
-  {Case(cfg, k, SigsOf(Full(cfg), f # "none"), f, "own", cfg, SigsOf(Full(cfg), f # "none"), "none", NoCfg) : k \in Kinds, f \in {"none"} \cup (TamperFields \cap GasTerms)}
+  {Case(cfg, k, SigsOf(Full(cfg), f # "none"), f, "own", cfg, SigsOf(Full(cfg), f # "none"), "none", NoCfg) : k \in Kinds, f \in {"none"} \cup (TamperFields \cap GasTerms)} \cup
+  \* no gasPayer member: honest; the member dropped / added after every signature was made
+  (IF "gp" \notin Slices THEN {} ELSE
+   {GCase(cfg, k, AllSign(cfg, "S", gg[1] # gg[2], "default"), IF gg[1] = gg[2] THEN "none" ELSE "gasPayer", gg[1], gg[2], NoCfg, <<>>, "none", NoCfg) :
+      k \in Kinds, gg \in {<<"absent", "absent">>, <<"sender", "absent">>, <<"absent", "sender">>}})
 \* 6. the account's signers are replaced (the decision is taken against the signers registered BEFORE the transaction)
 ReconfCases(cfg) ==
   IF cfg \notin ReconfCfgs THEN {} ELSE
   {Case(cfg, "signers", s, "none", "self", NoCfg, <<>>, "none", n) : n \in NewCfgs \ {cfg}, s \in SeqsUpTo(FreshSigs(cfg), 2)} \cup
   {Case(cfg, "signers", SigsOf(Full(cfg), TRUE), "data", "self", NoCfg, <<>>, "none", n) : n \in NewCfgs \ {cfg}}
-Cases(cfg) == (IF "sigs" \in Slices THEN SigCases(cfg) ELSE {}) \cup
-              (IF "tamper" \in Slices THEN {c \in TamperCases(cfg) : \E i \in 1..Len(c.sigs) : c.sigs[i].old} ELSE {}) \cup
-              (IF "payer" \in Slices THEN PayerCases(cfg) ELSE {}) \cup
-              (IF "junk" \in Slices THEN JunkCases(cfg) ELSE {}) \cup
-              (IF "box" \in Slices THEN BoxCases(cfg) ELSE {}) \cup
-              (IF "kinds" \in Slices THEN KindCases(cfg) ELSE {}) \cup
-              (IF "reconf" \in Slices THEN ReconfCases(cfg) ELSE {})
+\* the sweep named sl for an account with configuration k.  (The sweeps are enumerated one by one - see Next: TLC builds the union of
+\* large sets of records with a linear search per element.)
+Sweeps == {"sigs", "tamper", "payer", "junk", "box", "kinds", "reconf", "gp"}
+CasesOf(sl, k) == CASE sl = "sigs" -> SigCases(k)
+                    [] sl = "tamper" -> {c \in TamperCases(k) : \E i \in 1..Len(c.sigs) : c.sigs[i].old}
+                    [] sl = "payer" -> PayerCases(k)
+                    [] sl = "junk" -> JunkCases(k)
+                    [] sl = "box" -> BoxCases(k)
+                    [] sl = "kinds" -> KindCases(k)
+                    [] sl = "reconf" -> ReconfCases(k)
+                    [] sl = "gp" -> GpCases(k)
+                    [] OTHER -> {}
+\* 7. the account's signers were replaced in a recent block that is not stable yet (now: k, in the last stable block: s).  Every non-empty
+\*    subset of the holders registered THEN and of those registered NOW signs a transfer; both sets pay the gas of the reimbursed form
+\*    naming the account itself; the former holders try to put themselves back.
+StaleCases(k, s) ==
+  IF "stale" \notin Slices \/ k = s THEN {} ELSE
+  {Plain(k, "transfer", SigsOf(hs, FALSE)) : hs \in HolderSeqs(s) \cup HolderSeqs(k)} \cup
+  {Case(k, "transfer", SigsOf(Full(k), FALSE), "none", "own", k, SigsOf(Full(h), FALSE), "none", NoCfg) : h \in {k, s}} \cup
+  {Case(k, "transfer", SigsOf(Full(s), FALSE), "none", "own", k, SigsOf(Full(k), FALSE), "none", NoCfg)} \cup
+  (IF s \in NewCfgs THEN {Case(k, "signers", SigsOf(Full(s), FALSE), "none", "self", NoCfg, <<>>, "none", s)} ELSE {})
 
-AllCases == UNION {Cases(k) : k \in Configs}          \* constant: evaluated once
 ASSUME NewCfgs \subseteq Configs
 
 (* ------------------------------------------------------------------ the system *)
 VARIABLES cfg,    \* registered signers of the sender account
+          scfg,   \* its registered signers in the last stable block
           phase,  \* 0: idle | 1: a transaction was handed to the miner and its block is on its way to another node
           cur,    \* the last case handed to the miner (history)
           acc     \* the miner packaged it (history)
-vars == <<cfg, phase, cur, acc>>
-View == <<cfg, phase>>                    \* cur / acc only record the last step: nothing later depends on them
-Init == cfg \in Configs /\ phase = 0 /\ cur = NoCase /\ acc = FALSE
-\* the transaction is handed to a mining node; a packaged re-configuration replaces the account's signers
-Offer(c) == /\ phase = 0 /\ c.cfg = cfg
-            /\ phase' = 1 /\ cur' = c /\ acc' = Accepts(cfg, c)
-            /\ cfg' = IF Accepts(cfg, c) /\ c.kind = "signers" THEN c.ncfg ELSE cfg
+vars == <<cfg, scfg, phase, cur, acc>>
+View == <<cfg, scfg, phase>>              \* cur / acc only record the last step: nothing later depends on them
+Init == cfg \in Configs /\ scfg = cfg /\ phase = 0 /\ cur = NoCase /\ acc = FALSE
+\* the signers the node consults: the current ones
+Consulted == IF "Neg_StaleSigners" \in Dev THEN scfg ELSE cfg
+\* the transaction is handed to a mining node; a packaged re-configuration replaces the account's signers (in a block that is not stable yet)
+Handed(c) == /\ phase = 0 /\ c.cfg = cfg
+             /\ phase' = 1 /\ cur' = c /\ acc' = Accepts(Consulted, c)
+             /\ cfg' = IF Accepts(Consulted, c) /\ c.kind = "signers" THEN c.ncfg ELSE cfg
+             /\ UNCHANGED scfg
+Offer(c) == cfg = scfg /\ Handed(c)
+\* the same while the account's signers differ from those (s) of the last stable block
+OfferStale(c, s) == cfg # scfg /\ s = scfg /\ Handed(c)
 \* the block with it (the miner's, or one forged by a dishonest deputy if the miner refused) reaches another node
-Validate == phase = 1 /\ phase' = 0 /\ UNCHANGED <<cfg, cur, acc>>
-Next == \/ \E c \in AllCases : Offer(c)
+Validate == phase = 1 /\ phase' = 0 /\ UNCHANGED <<cfg, scfg, cur, acc>>
+\* enough deputies confirm the head block: the re-configuration is part of the stable state
+Stabilise == phase = 0 /\ cfg # scfg /\ scfg' = cfg /\ UNCHANGED <<cfg, phase, cur, acc>>
+\* (every quantifier ranges over a constant set: TLC enumerates them once and labels each step with the case)
+Next == \/ \E k \in Configs : \E sl \in Sweeps \cap Slices : \E c \in CasesOf(sl, k) : Offer(c)
+        \/ \E k \in NewCfgs : \E s \in Configs : \E c \in StaleCases(k, s) : OfferStale(c, s)
         \/ Validate
+        \/ Stabilise
 Spec == Init /\ [][Next]_vars
 
 (* ------------------------------------------------------------------ clauses
@@ -234,17 +343,17 @@ CCanonicalAccepted(k, c, a) == Canonical(k, c) /\ Authorized(k, c) => a
 \* keep only the first signature of every signer
 RECURSIVE Dedup(_, _)
 Dedup(sigs, seen) == IF sigs = <<>> THEN <<>>
-                     ELSE IF Head(sigs).by \in seen THEN Dedup(Tail(sigs), seen)
-                     ELSE <<Head(sigs)>> \o Dedup(Tail(sigs), seen \cup {Head(sigs).by})
+                     ELSE IF <<Head(sigs).who, Head(sigs).by>> \in seen THEN Dedup(Tail(sigs), seen)
+                     ELSE <<Head(sigs)>> \o Dedup(Tail(sigs), seen \cup {<<Head(sigs).who, Head(sigs).by>>})
 Without(s, i) == [j \in 1..(Len(s) - 1) |-> IF j < i THEN s[j] ELSE s[j + 1]]
 RECURSIVE ValidOnly(_, _, _)
-ValidOnly(scope, f, sigs) == IF sigs = <<>> THEN <<>>
-                             ELSE (IF Counts(scope, f, Head(sigs)) THEN <<Head(sigs)>> ELSE <<>>) \o ValidOnly(scope, f, Tail(sigs))
+ValidOnly(role, c, sigs) == IF sigs = <<>> THEN <<>>
+                            ELSE (IF Counts(role, c, Head(sigs)) THEN <<Head(sigs)>> ELSE <<>>) \o ValidOnly(role, c, Tail(sigs))
 \* repeating a signer (same bytes or re-encoded) never turns a refused transaction into an accepted one
 CRepeatNeverHelps(k, c, a) ==
-  a => Accepts(k, [c EXCEPT !.sigs = Dedup(ValidOnly(SenderScope(c), c.f, c.sigs), {}),
-                            !.psigs = Dedup(ValidOnly(PayerScope, c.f, c.psigs), {}),
-                            !.f = "none"])
+  a => Accepts(k, [c EXCEPT !.sigs = Dedup(ValidOnly("sender", c, c.sigs), {}),
+                            !.psigs = Dedup(ValidOnly("payer", c, c.psigs), {}),
+                            !.f = "none", !.gp0 = c.gp])
 \* no acceptance rests on a foreign key
 NotForeign(s) == s.by # Foreign
 CForeignNeverHelps(k, c, a) ==
@@ -256,17 +365,28 @@ CRemovalNeverHelps(k, c, a) ==
 CEncodingIrrelevant(k, c, a) ==
   Authorized(k, c) <=> Authorized(k, [c EXCEPT !.sigs = [i \in 1..Len(c.sigs) |-> [c.sigs[i] EXCEPT !.v = 0]],
                                                !.psigs = [i \in 1..Len(c.psigs) |-> [c.psigs[i] EXCEPT !.v = 0]]])
-\* a field changed after ALL sender signatures were made, within what they cover, makes the transaction ineffective
+\* a field changed after ALL sender signatures were made, within what each of them covers, makes the transaction ineffective
 CTamperFalsifies(k, c, a) ==
-  c.f \in SenderScope(c) /\ (\A i \in 1..Len(c.sigs) : c.sigs[i].old) => ~a
-\* gas terms (or sender signatures) changed after ALL payer signatures were made: ineffective; no payer signature: ineffective
+  (\A i \in 1..Len(c.sigs) : c.sigs[i].old /\ c.f \in Covers(c.sigs[i].sch)) => ~a
+\* the gasPayer member is signed content in both sender schemes: dropped, added or pointed elsewhere after all sender signatures: ineffective
+CGasPayerFieldBinds(k, c, a) ==
+  c.gp0 # c.gp /\ (\A i \in 1..Len(c.sigs) : c.sigs[i].old) => ~a
+\* a signature made in one scheme (or role) does not authorise in another: sender signatures all made in a scheme other than the one the
+\* form demands (payer signatures added to / dropped from a signed transaction), or payer signatures none of which is a payer's statement
+CSchemeBinds(k, c, a) ==
+  /\ (\A i \in 1..Len(c.sigs) : c.sigs[i].sch # Form(c)) => ~a
+  /\ (Reimbursed(c) /\ \A i \in 1..Len(c.psigs) : c.psigs[i].sch # "payer") => ~a
+\* gas terms (or sender signatures) changed after ALL payer signatures were made: ineffective; another account named without a payer signature:
+\* ineffective; payer signatures none of which is by a holder of the account that is named (the payer swapped): ineffective
 CPayerBinds(k, c, a) ==
-  Reimbursed(c) /\ (c.psigs = <<>> \/ (c.f \in PayerScope /\ \A i \in 1..Len(c.psigs) : c.psigs[i].old)) => ~a
-\* whoever pays: a changed field has an effect only under a signature made AFTER the change that covers it (no field is left
-\* to nobody - in particular the gas terms of a reimbursed transaction, also when the sender reimburses itself)
+  /\ (Reimbursed(c) /\ c.f \in Covers("payer") /\ \A i \in 1..Len(c.psigs) : c.psigs[i].old) => ~a
+  /\ (~Reimbursed(c) /\ PayerAcct(c.gp) # "S") => ~a
+  /\ (Reimbursed(c) /\ \A i \in 1..Len(c.psigs) : c.psigs[i].who # PayerAcct(c.gp)) => ~a
+\* whoever pays: a changed field has an effect only under a signature made AFTER the change, in the scheme that is read, that covers it (no
+\* field is left to nobody - in particular the gas terms of a reimbursed transaction, also when the sender reimburses itself)
 CChangeCovered(k, c, a) ==
-  a /\ c.f \in Fields => \/ c.f \in SenderScope(c) /\ \E i \in 1..Len(c.sigs) : ~c.sigs[i].old
-                         \/ c.f \in PayerScope /\ Reimbursed(c) /\ \E i \in 1..Len(c.psigs) : ~c.psigs[i].old
+  a /\ c.f \in Fields => \/ \E i \in 1..Len(c.sigs) : ~c.sigs[i].old /\ c.sigs[i].sch = Form(c) /\ c.f \in Covers(c.sigs[i].sch)
+                         \/ Reimbursed(c) /\ c.f \in Covers("payer") /\ \E i \in 1..Len(c.psigs) : ~c.psigs[i].old /\ c.psigs[i].sch = "payer"
 \* a sub-transaction changed (or its signatures replaced) after the box sender signed makes the box ineffective
 CBoxBinds(k, c, a) == c.box = "old" /\ c.f \in BoxScope => ~a
 \* what the JSON form of a sub-transaction claims its hash to be is not content: it neither grants nor removes authority
@@ -274,7 +394,8 @@ CLabelIrrelevant(k, c, a) == /\ Authorized(k, c) <=> Authorized(k, Labelled(c, "
                              /\ a <=> Accepts(k, Labelled(c, "true"))
 \* the threshold is exact
 CThresholdExact(k, c, a) ==
-  k # <<>> /\ c.f = "none" /\ c.pay = "self" /\ c.box = "none" /\ WellFormed(c.sigs) =>
+  k # <<>> /\ c.f = "none" /\ ~Reimbursed(c) /\ PayerAcct(c.gp) = "S" /\ c.box = "none" /\ WellFormed(c.sigs)
+           /\ (\A i \in 1..Len(c.sigs) : c.sigs[i].sch = "default" /\ c.sigs[i].who = "S") =>
     (a <=> SumW(k, Range([i \in 1..Len(c.sigs) |-> c.sigs[i].by])) >= Threshold)
 \* a re-configuration takes effect exactly when it is packaged
 CReconf(k, c, a) == cfg' = IF a /\ c.kind = "signers" THEN c.ncfg ELSE k
@@ -286,6 +407,8 @@ ForeignNeverHelps == [][OnOffer(CForeignNeverHelps)]_vars
 RemovalNeverHelps == [][OnOffer(CRemovalNeverHelps)]_vars
 EncodingIrrelevant == [][OnOffer(CEncodingIrrelevant)]_vars
 TamperFalsifies == [][OnOffer(CTamperFalsifies)]_vars
+GasPayerFieldBinds == [][OnOffer(CGasPayerFieldBinds)]_vars
+SchemeBinds == [][OnOffer(CSchemeBinds)]_vars
 PayerBinds == [][OnOffer(CPayerBinds)]_vars
 ThresholdExact == [][OnOffer(CThresholdExact)]_vars
 Reconf == [][OnOffer(CReconf)]_vars
